@@ -16,6 +16,8 @@ entries named like a required decision (class `shadow`).
 
 Deviation flags (diagnosis of documented defects only):
   "fd_null"            a boxed function definition evaluates to null
+  "fd_dynamic"         the function value of a boxed function definition evaluates its body in the caller's scope (it does
+                       not capture the scope it was defined in; same root as C01/closure-dynamic-scope)
   "ctx_flat"           the entries of a boxed context nested inside another boxed context are written into the frame
                        of the enclosing logic (they stay visible, and overwrite same-named entries, after the nested
                        context has ended)
@@ -94,11 +96,19 @@ def coerce_builtin(t, v):
 
 
 class DRef(F.Ref):
+    def e_filter(self, n, env):
+        if F.filter_is_index(n[2]):
+            i = self.ev(n[2], env)
+            if isinstance(i, Decimal) and i.as_tuple().exponent != 0:
+                # 2.0 / 2E+0 as a position: number-to-position conversion is C08's subject (the SUT reads the printed text)
+                raise Unspecified("index that is an integer written with a fraction part or exponent")
+        return F.Ref.e_filter(self, n, env)
+
     def apply(self, f, args, env):
         if isinstance(f, NativeFn):
             if len(args) != len(f.params):
                 raise Unspecified("arity mismatch")
-            return f.call(self, list(args))
+            return f.call(self, list(args), env)
         return F.Ref.apply(self, f, args, env)
 
     def e_calln(self, n, env):
@@ -110,7 +120,7 @@ class DRef(F.Ref):
             names = [p for p, _ in f.params]
             if set(given) != set(names) or len(given) != len(n[2]):
                 raise Unspecified("named arguments do not match the parameters")
-            return f.call(self, [given[p] for p in names])
+            return f.call(self, [given[p] for p in names], env)
         return F.Ref.e_calln(self, n, env)
 
 
@@ -176,7 +186,7 @@ class Evaluation:
                 names = [p for p, _ in f.params]
                 if set(given) != set(names):
                     raise Unspecified("bindings do not match the parameters")
-                return f.call(self.ref, [given[p] for p in names])
+                return f.call(self.ref, [given[p] for p in names], env)
             if f is None or self.fired:
                 return None      # behind a modelled deviation the invocation of a non-function shows up as null
             raise Unspecified("invocation of a value that is not a model function")
@@ -188,8 +198,12 @@ class Evaluation:
                 return None
             params, body = L[1], L[2]
 
-            def call(ref, args, params=params, body=body, env=env):
-                return self.logic(body, env.push(dict(zip(params, args))))
+            def call(ref, args, caller=None, params=params, body=body, env=env):
+                base = env
+                if "fd_dynamic" in self.dev and caller is not None:
+                    self.fired.add("fd_dynamic")
+                    base = caller
+                return self.logic(body, base.push(dict(zip(params, args))))
             return NativeFn("<boxed>", [(p, None) for p in params], call)
         if t == "dt":
             return self.table(L[1], env)
@@ -259,7 +273,7 @@ class Evaluation:
             else:
                 frame[r] = self.knowledge(r, inputs, overrides)
 
-        def call(ref, args, b=b, params=params, frame=frame):
+        def call(ref, args, caller=None, b=b, params=params, frame=frame):
             check_args(params, args)
             env = F.Env([dict(frame), dict(zip([p for p, _ in params], args))])
             return coerce_builtin(b.get("type"), self.logic(b["logic"], env))
@@ -268,7 +282,7 @@ class Evaluation:
     def service_function(self, sv):
         params = [(i, self.idx[i][1]["type"]) for i in sv["inI"]] + [(d, self.idx[d][1].get("type")) for d in sv["inD"]]
 
-        def call(ref, args, sv=sv, params=params):
+        def call(ref, args, caller=None, sv=sv, params=params):
             for (p, t), a in zip(params, args):
                 if t is not None and a is not None and not conforms_input(t, a):
                     raise Unspecified("service argument does not conform to the parameter type")
